@@ -118,14 +118,14 @@ enum Op : uint8_t {
 	OP_CTOR, OP_DTOR, OP_ENTER, OP_EXIT, OP_UPDATE, OP_REACT, OP_QUERY,
 	OP_CHANGE, OP_CHANGE_WITH, OP_IMMEDIATE, OP_IMMEDIATE_WITH,
 	OP_SUCCEED, OP_FAIL, OP_PLAN_APPEND, OP_PLAN_REMOVE, OP_PLAN_CLEAR,
-	OP_SAVE, OP_LOAD, OP_REPLAY_ENTER, OP_REPLAY, OP_COPY, OP_ATTACH, OP_DETACH, OP_OBSERVE,
+	OP_SAVE, OP_LOAD, OP_REPLAY_ENTER, OP_REPLAY, OP_COPY, OP_ATTACH, OP_DETACH, OP_OBSERVE, OP_MOVE,
 	OP_COUNT
 };
 
 inline const char* opName(uint8_t op) {
 	static const char* n[] = {"ctor", "dtor", "enter", "exit", "update", "react", "query", "changeTo", "changeWith", "immediateChangeTo",
 							  "immediateChangeWith", "succeed", "fail", "plan.append", "plan.remove", "plan.clear", "save", "load",
-							  "replayEnter", "replayTransition", "copy", "attachLogger", "detachLogger", "observe"};
+							  "replayEnter", "replayTransition", "copy", "attachLogger", "detachLogger", "observe", "move"};
 	return op < OP_COUNT ? n[op] : "?";
 }
 
